@@ -78,7 +78,7 @@ struct ghost {
   } e;
   bool may_block;       /* an OS contract that is allowed to sleep was used   */
   /* ---- last read / write / poll (to tie library results to kernel results) - */
-  struct { unsigned rd_calls; int rd_fd; const void *rd_buf; size_t rd_n; long rd_ret; int rd_errno; } rl;
+  struct { unsigned rd_calls; int rd_fd; const void *rd_buf; size_t rd_n; long rd_ret; int rd_errno; bool rd_eof; /* rd_eof: end of stream (0 returned for n > 0) */ } rl;
   struct { unsigned wr_calls; int wr_fd; const void *wr_buf; size_t wr_n; long wr_ret; int wr_errno; } wl;
   struct {
     int poll_calls, poll_timeout, poll_ret; int64_t poll_at;
